@@ -36,6 +36,7 @@ type Config struct {
 	StopOnViol   bool
 	ModelPerPath bool // extract a model for each completed path (native validation)
 	ModelMax     int  // at most this many per harness (0 = all)
+	EagerInit    bool // run the initialisers of all imports eagerly (Go order) instead of lazily
 	DumpDir      string
 }
 
